@@ -361,6 +361,9 @@ namespace Dune {
             if(eq<T, cstyle>(val, T(0), epsilon)) return I(0);
           // first get an approximation
           I lower = I(val); // now |val-lower| < 1
+          // an integral val is its own truncation; beyond 2^digits T(lower+1) == T(lower), which
+          // must not be taken for "lower+1 is approximately val"
+          if(T(lower) == val) return lower;
           // make sure we're really lower in case the cast truncated to an unexpected direction
           if(T(lower) > val) lower--; // now val-lower < 1
           // check whether lower + 1 is approximately val
